@@ -230,6 +230,17 @@ func (e *Engine) externalModel(fr *frame, ins ssa.Instruction, name string, fn *
 		return e.havocResult(resT, "printf"), reach, true
 	case "log.Printf", "log.Println", "log.Print":
 		use()
+		// colog gives a line the level named by its prefix; "error: ", "err: " and "alert: " are
+		// the error-level ones. Only format strings that are literals are classified.
+		if len(args) > 0 {
+			if sc, ok := args[0].(Sc); ok && sc.S == SStr {
+				for lit, c := range e.lits {
+					if c == sc.T && (strings.HasPrefix(lit, "error: ") || strings.HasPrefix(lit, "err: ") || strings.HasPrefix(lit, "alert: ")) {
+						e.ghostEvent("logerror", reach, "")
+					}
+				}
+			}
+		}
 		return nil, reach, true
 	case "log.Fatalf", "log.Fatal", "log.Fatalln", "os.Exit", "log.Panicf", "log.Panic":
 		use()
